@@ -100,4 +100,115 @@ theorem rightCut_named (cfg : Cfg) (first blockish : Bool) (m : Mark) (t : List 
     · simp
   · rintro (rfl | ⟨rfl, hb | hl | ha⟩) <;> simp [rightCut, *]
 
+/-! ### the whole source as a partition -/
+
+/-- one span of the source of a template -/
+inductive Part where
+  /-- whitespace a rule removes (possibly empty) -/
+  | removed (s : List Char)
+  /-- text that is printed as it is -/
+  | printed (s : List Char)
+  /-- a tag: delimiters, markers and interior (for a raw block also its content) -/
+  | tag (g : Tag)
+
+def Part.src (d : Delims) : Part → List Char
+  | .removed s => s
+  | .printed s => s
+  | .tag g => g.src d
+
+/-- what a part contributes to the output -/
+def Part.out (cfg : Cfg) (vm bm : List Char) : Part → List Char
+  | .removed _ => []
+  | .printed s => s
+  | .tag g => tagOut cfg vm bm g
+
+/-- the spans of `t ++ unparseTail d tail` (the first `l` characters of `t` are removed by the tag on
+    its left): for every text its removed prefix, its printed part and its removed suffix, and the tags -/
+def specParts (cfg : Cfg) : Bool → Nat → List Char → List (Tag × List Char) → List Part
+  | _, l, t, [] => [.removed (t.take l), .printed (t.drop l)]
+  | first, l, t, (g, t') :: rest =>
+    [.removed (t.take l), .printed (cut l (rightCutG cfg first g t) t),
+      .removed (t.drop (max l (t.length - rightCutG cfg first g t))), .tag g] ++
+      specParts cfg false (leftCutG cfg g t') t' rest
+
+theorem take_cut_drop (l r : Nat) (t : List Char) :
+    t.take l ++ (cut l r t ++ t.drop (max l (t.length - r))) = t := by
+  by_cases h : l + r ≤ t.length
+  · have : max l (t.length - r) = t.length - r := by omega
+    rw [this]; exact (cut_partition l r t h).symm
+  · have h' : t.length ≤ l + r := by omega
+    have : max l (t.length - r) = l := by omega
+    rw [this, cut_nil_of_overlap l r t h']; simp
+
+/-- **every character of the source belongs to exactly one span**: the spans in order are the source -/
+theorem specParts_src (cfg : Cfg) (d : Delims) :
+    ∀ (tail : List (Tag × List Char)) (first : Bool) (l : Nat) (t : List Char),
+      (specParts cfg first l t tail).flatMap (Part.src d) = t ++ unparseTail d tail
+  | [], first, l, t => by simp [specParts, Part.src, unparseTail]
+  | (g, t') :: rest, first, l, t => by
+    simp only [specParts, List.flatMap_append, List.flatMap_cons, List.flatMap_nil, Part.src, List.append_nil,
+      specParts_src cfg d rest false _ t', unparseTail]
+    have := take_cut_drop l (rightCutG cfg first g t) t
+    simp only [List.append_assoc] at this ⊢
+    rw [← List.append_assoc (List.take l t), ← List.append_assoc (List.take l t ++ _)]
+    simp only [List.append_assoc]
+    rw [← List.append_assoc (cut _ _ _), ← List.append_assoc (List.take l t), this]
+
+/-- … and the output of the rules is what the printed spans and the tags contribute, in order -/
+theorem specParts_out (cfg : Cfg) (vm bm : List Char) :
+    ∀ (tail : List (Tag × List Char)) (first : Bool) (l : Nat) (t : List Char),
+      (specParts cfg first l t tail).flatMap (Part.out cfg vm bm) = specTail cfg vm bm first l t tail
+  | [], first, l, t => by simp [specParts, Part.out, specTail]
+  | (g, t') :: rest, first, l, t => by
+    simp [specParts, Part.out, specTail, specParts_out cfg vm bm rest false _ t']
+
+/-- the removed spans hold nothing but whitespace (for ordinary tags; a line statement also takes
+    the line break that ends it, which is whitespace too) -/
+theorem specParts_removed_ws (cfg : Cfg) :
+    ∀ (tail : List (Tag × List Char)) (first : Bool) (l : Nat) (t : List Char),
+      (∀ c ∈ t.take l, isWs c = true) →
+      ∀ s, Part.removed s ∈ specParts cfg first l t tail → ∀ c ∈ s, isWs c = true
+  | [], first, l, t => by
+    intro hl s hs c hc
+    simp only [specParts, List.mem_cons, Part.removed.injEq, reduceCtorEq, List.not_mem_nil, or_false] at hs
+    subst hs; exact hl c hc
+  | (g, t') :: rest, first, l, t => by
+    intro hl s hs c hc
+    simp only [specParts, List.cons_append, List.nil_append, List.mem_cons, Part.removed.injEq, reduceCtorEq,
+      false_or] at hs
+    rcases hs with rfl | rfl | hs
+    · exact hl c hc
+    · -- the suffix the tag on the right removes
+      have hsub : c ∈ t.drop (t.length - rightCutG cfg first g t) := by
+        have hle : t.length - rightCutG cfg first g t ≤ max l (t.length - rightCutG cfg first g t) := by omega
+        obtain ⟨k, hk⟩ := Nat.exists_eq_add_of_le hle
+        rw [hk, ← List.drop_drop] at hc
+        exact List.mem_of_mem_drop hc
+      unfold rightCutG at hsub
+      have hn := rightCut_named (cfgFor cfg g) first g.blockish g.l t
+      revert hsub hn
+      generalize g.l = m
+      intro hsub hn
+      cases m with
+      | minus => exact hn.1 rfl c hsub
+      | none => exact isWs_of_isHws (hn.2.1 rfl c hsub)
+      | plus =>
+        rw [hn.2.2 (Or.inl rfl)] at hsub
+        simp at hsub
+    · refine specParts_removed_ws cfg rest false _ t' ?_ s hs c hc
+      intro c hc
+      unfold leftCutG at hc
+      split at hc
+      · -- a line statement: blanks up to the line break and the line break
+        unfold lineCut at hc
+        have key : t'.take ((t'.takeWhile isHws).length + nlLen (t'.dropWhile isHws)) =
+            t'.takeWhile isHws ++ (t'.dropWhile isHws).take (nlLen (t'.dropWhile isHws)) := by
+          conv => lhs; arg 2; rw [← List.takeWhile_append_dropWhile (p := isHws) (l := t')]
+          exact List.take_length_add_append _
+        rw [key, List.mem_append] at hc
+        rcases hc with hc | hc
+        · exact isWs_of_isHws (mem_takeWhile_sat hc)
+        · exact isWs_of_isNl (nlLen_take_isNl _ c hc)
+      · exact (leftCut_named (cfgFor cfg g) g.blockish g.r t').2.2.2 c hc
+
 end MJ.Lexer
